@@ -37,7 +37,7 @@ SHRINK = ["aborts", "post"]
 def plan(tier):
     if tier == "thorough":
         return {"cases": 1500, "timeout": 1500, "wall_budget": 1700, "recheck": 4, "nproc": 6}
-    return {"cases": 40, "timeout": 600, "wall_budget": 70, "recheck": 2, "nproc": 6}
+    return {"cases": 80, "timeout": 600, "wall_budget": 120, "recheck": 2, "nproc": 6}
 
 def _gen_abort(rng, jobs):
     k = rng.choice(["script-exit", "script-exit", "script-kill", "script-kill-only", "bob-kill", "bob-kill", "bob-kill", "sigint"])
